@@ -181,6 +181,15 @@ class Conn:
             return False
         kind = fault[0]
         self.record['events'].append(('fault', key, fault))
+        if kind == 'then_more':      # the message with the inner fault applied, then (in a segment of its own) a well-formed MSG_IGNORE of n data bytes:
+            stop = self._emit_fault(data, site, tree, tuple(fault[1]))      # a peer that keeps talking after its malformed message
+            if not stop:
+                self._queue(wire.packet(wire.S([wire.Raw(bytes([2]), 'type'), wire.L(b'\x00' * fault[2], 'data')], 'ignore')))
+            return stop
+        return self._emit_fault(data, site, tree, fault)
+
+    def _emit_fault(self, data, site, tree, fault):
+        kind = fault[0]
         if kind == 'debug_then':     # a well-formed MSG_DEBUG first, then the message with the inner fault applied (two deviations at one site)
             self._queue(wire.packet(wire.debug_tree()))
             fault = tuple(fault[1])
@@ -218,7 +227,7 @@ class Conn:
         if kind == 'len':            # set a length field to a wrong value
             idx, mode = fault[1], fault[2]
             true = site['fields'][idx][2]
-            val = {'zero': 0, 'minus1': true - 1, 'plus1': true + 1, 'huge31': 0x7fffffff, 'huge32': 0xffffffff}[mode]
+            val = mode if isinstance(mode, int) else {'zero': 0, 'minus1': true - 1, 'plus1': true + 1, 'huge31': 0x7fffffff, 'huge32': 0xffffffff}[mode]
             self._queue(wire.serialize(tree, {idx: val}))
             return False
         if kind == 'type':           # wrong message type byte (offset 5 of a packet)
@@ -298,6 +307,10 @@ def faults_for_site(site, level='full', trunc_step=1):
         out.append(('emptypayload',))
         out.append(('padoverrun',))
         out.append(('debug_then', ('len', 0, 'plus1')))
+        # the packet length replaced by small values that keep the block-size rule (negative payload length) while the peer keeps talking
+        for small in (4, 12):
+            out.append(('then_more', ('len', 0, small), 64))
+        out.append(('then_more', ('padoverrun',), 256))
         out.append(('debug_then', ('emptypayload',)))
     elif site['label'] in ('banner', 'pre_banner'):
         out.append(('prelines', 1))
